@@ -60,7 +60,8 @@ TBodyEnd == /\ IsEv("BodyEnd")
                       /\ Ev.out # "bte" => \/ (sub[i] = "park" /\ ParkOut(i) = Ev.out)
                                             \/ (Ev.out = "tsusp" /\ sub[i] = "atom" /\ BodyRepark(i))
                  ELSE IF Ev.out \in {"ok", "fail"}
-                        THEN wph[i] = "run" /\ sub[i] = "ctxWait" /\ i \notin chk /\ BodyStep(i) /\ H3 /\ H5 /\ fout'[i] = Ev.out
+                        THEN /\ wph[i] = "run" /\ i \notin chk /\ BodyStep(i) /\ H3 /\ H5 /\ fout'[i] = Ev.out
+                             /\ (sub[i] = "ctxWait" \/ (sub[i] = "atom" /\ Atom(i) \in {"rok", "rfail"}))
                         ELSE fout[i] = Ev.out /\ wph[i] # "run" /\ NoOp
             /\ Consume
 
